@@ -17,7 +17,7 @@ from ..consteval import NotConstant
 from ..cfg import CFG, node_calls
 
 LEVEL = "other"
-TECHNIQUE = ("syntax-directed extraction of the precedence chain; CFG must-follow / must-precede / def-use (dead store) queries on the encoding-change and sniffing functions; evaluation of the pre-scan's byte classes and of handleMeta on every attribute list of length <= 3 against a transcription of the standard; decoder end-of-input contract read off codecs.StreamReader's source")
+TECHNIQUE = ("syntax-directed extraction of the precedence chain; CFG must-follow / must-precede / def-use (dead store) queries on the encoding-change and sniffing functions; evaluation of the pre-scan's byte classes and of handleMeta on every attribute list of length <= 3 against a transcription of the standard; decoder end-of-input contract read off codecs.StreamReader's source; source evaluation (sa/classeval.py) of determineEncoding and of the late <meta> handler on models of the stream, the BOM / pre-scan results and the Encoding Standard's label table")
 CLAIM = ('The order, confidence and guards of the encoding sources in determineEncoding equal the documented '
          'precedence; a declared UTF-16 is mapped to UTF-8 and the mapped value is the one that takes effect '
          'on both declaration paths; a late declaration restarts the parse in the right order and only while '
@@ -31,7 +31,7 @@ CLAIM = ('The order, confidence and guards of the encoding sources in determineE
          'reads and seeks by the length of the BOM matched; byte labels are decoded as strict ASCII; an unquoted '
          'charset value ends at white space or `;`; no exception leaves the content= extractor (it would end the '
          'whole pre-scan).'
-         " A declared x-user-defined means windows-1252; the pre-scan's byte classes and resumption points equal the standard's (after `<meta`, tag-name end, unquoted-value end, comment end, lone `<`, `<meta` + name character, end of buffer inside a tag); what one meta element declares equals the standard's processing for every attribute list of length <= 3 over 8 attribute kinds; the decoder is told when the input ends; the pre-scan buffer is completed across short reads; a late meta whose charset names no encoding falls back to its pragma.")
+         " A declared x-user-defined means windows-1252; the pre-scan's byte classes and resumption points equal the standard's (after `<meta`, tag-name end, unquoted-value end, comment end, lone `<`, `<meta` + name character, end of buffer inside a tag); what one meta element declares equals the standard's processing for every attribute list of length <= 3 over 8 attribute kinds; the decoder is told when the input ends; the pre-scan buffer is completed across short reads; a late meta whose charset names no encoding falls back to its pragma. determineEncoding, run on models of its sources, returns the documented winner and confidence for every pair of sources, skips labels that name nothing and never inherits a parent encoding given under any UTF-16 label; the late <meta> handler, run with its helpers, asks for the standard's encoding change and no other.")
 NOT_DECIDED = ('attribute-name / quoted-value scanning of the pre-scan beyond the clauses above (an independent transcription agreed with it on '
                '100 000 generated inputs after the repairs, which is testing, not part of the check); chardet; '
                'equality of the tree with the tree of the decoded bytes.')
